@@ -154,13 +154,18 @@ def run_decompiled(src, result_name="result"):
     except (SyntaxError, ValueError, RecursionError) as e:
         return {"ok": False, "ev": [], "exc": type(e).__name__ + ":" + str(e)[:80], "static": None}
 
-    def imp(name, globals=None, locals=None, fromlist=(), level=0):  # noqa: A002
-        if globals is None and locals is None and not fromlist:  # a user-level __import__('x') call
-            key = ("builtins", "__import__")
-            if key not in cache:
-                cache[key] = Stub(log, ("g",) + key)
-            return cache[key](name)
-        return _Mod(name, log, cache)
+    class ImpStub(Stub):
+        """builtins.__import__: the import statement calls it with (name, globals, locals, fromlist,
+        level) and globals being this very environment; any other call is a call made by the pickle"""
+
+        def __call__(self, *a, **k):
+            if len(a) == 5 and a[1] is env and not k:
+                return _Mod(a[0], log, cache)
+            return self._call(a, k)
+
+    env = {}
+    imp = ImpStub(log, ("g", "builtins", "__import__"))
+    cache[("builtins", "__import__")] = imp
 
     bound = set()
     for n in ast.walk(tree):
@@ -182,7 +187,7 @@ def run_decompiled(src, result_name="result"):
         key = ("builtins", nm)
         cache[key] = Stub(log, ("g",) + key)
         bi[nm] = cache[key]
-    env = {"__builtins__": bi, "UNPICKLER": Unp()}
+    env.update({"__builtins__": bi, "UNPICKLER": Unp()})
     static = static_events(tree)
     try:
         exec(compile(tree, "<decompiled>", "exec"), env)  # noqa: S102 - inert environment
